@@ -220,10 +220,12 @@ _LIT_BYTE = lambda i: (i * 37 + 11) % 256      # value id -> byte
 
 
 def behaviour_to_job(beh, kind, B, jid, lc=3, lp=0, pb=2):
-    """beh: list of history entries printed by LzDecoder.tla (see Hist there). Returns (job, expected calls)."""
+    """beh: list of history entries printed by LzDecoder.tla (see H / H2 there). Returns the pieces of a forge job:
+    (read sizes, expected per-call results, lzma script, lzma2 chunks, bad distance or None)."""
     reads, expect = [], []
     script, chunks, cur = [], [], None
     bad = None
+    need_props, after_raw, nl = True, False, 0
     for h in beh:
         t = h[0]
         if t == "read":
@@ -237,22 +239,30 @@ def behaviour_to_job(beh, kind, B, jid, lc=3, lp=0, pb=2):
             (cur["syms"] if cur is not None else script).append(["match", h[1], 2])
             bad = h[1]
         elif t == "chunk":
+            reset = bool(h[3])
             if h[1] == "U":
                 cur = None
-                chunks.append({"t": "raw", "data": [_LIT_BYTE(i) for i in h[4]], "dict_reset": bool(h[3])})
+                chunks.append({"t": "raw", "data": [_LIT_BYTE(i) for i in h[4]], "dict_reset": reset})
+                if reset:
+                    need_props = True
+                after_raw = True
             else:
-                cur = {"t": "lzma", "syms": [], "dict_reset": bool(h[3]), "state_reset": True}
+                nl += 1
+                # control byte: 0xE0 dictionary reset, 0xC0 new properties (required after a dictionary reset by an
+                # uncompressed chunk), 0xA0 state reset (required after an uncompressed chunk), else 0x80 / 0xA0 alternate
+                cur = {"t": "lzma", "syms": [], "dict_reset": reset, "new_props": (not reset) and need_props,
+                       "state_reset": after_raw or nl % 2 == 0}
                 chunks.append(cur)
-        elif t == "marker":
-            pass
+                need_props, after_raw = False, False
     return reads, expect, script, chunks, bad
 
 
 def parse_hist(line):
-    """TLC prints the history as a TLA+ tuple of tuples; convert to python lists."""
-    s = line.strip()
-    s = s.replace("<<", "[").replace(">>", "]").replace("TRUE", "1").replace("FALSE", "0")
-    return json.loads(s)
+    """TLC prints <<"HIST", "<json text as a TLA+ string>">>."""
+    m = re.match(r'^<<"HIST", (".*")>>$', line.strip())
+    if not m:
+        raise ToolError("unparsable HIST line: " + line[:200])
+    return json.loads(json.loads(m.group(1)))
 
 
 def lzdecoder_behaviours(ctx, consts, n, seed, depth=400, name=""):
@@ -266,7 +276,7 @@ def lzdecoder_behaviours(ctx, consts, n, seed, depth=400, name=""):
     hs = []
     for l in r.out.splitlines():
         if l.startswith('<<"HIST"'):
-            hs.append(parse_hist(l)[1])
+            hs.append(parse_hist(l))
     return hs
 
 
